@@ -118,23 +118,31 @@ Qed.
 
 
 (* ---------- reduce / accumulate / outer / at on discretized elements, no out ---------- *)
+Arguments byaxis_astype : simpl never.
 Lemma byaxis_astype_dt ds kept d : ts_dt (ds_ts (byaxis_astype ds kept d)) = d.
 Proof.
-  unfold byaxis_astype. cbn. destruct (dt_eqb d (ts_dt (ds_ts ds))) eqn:E.
+  unfold byaxis_astype. cbn [ds_ts]. destruct (dt_eqb d (ts_dt (ds_ts ds))) eqn:E.
   - apply dt_eqb_eq in E. cbn. congruence.
   - destruct (is_floating d); reflexivity.
 Qed.
 Lemma byaxis_astype_axes ds kept d : ds_axes (byaxis_astype ds kept d) = pick dummy_ax (ds_axes ds) kept.
 Proof. reflexivity. Qed.
 
-Definition wraps_disc_meth (st : store) (ds : dspace) (m : meth) (kw : kwargs)
+(* at most the SHAPE attribute of one buffer differs (same dtype, same numbers) *)
+Definition reshape_of (st_raw st' : store) : Prop :=
+  st' = st_raw \/
+  exists id shp, st' = wr st_raw id (mkArr (a_dt (rd st_raw id)) shp (a_data (rd st_raw id))).
+
+Definition wraps_disc_meth (st_raw st' : store) (ds : dspace) (m : meth) (kw : kwargs)
            (r : operand) (rr : @rret T) : Prop :=
   match rr with
-  | RRScal v => r = OpScal v
-  | RRNone => r = OpNone
+  | RRScal v => r = OpScal v /\ st' = st_raw
+  | RRNone => r = OpNone /\ st' = st_raw
   | RRBuf id =>
-      exists rs, r = OpDisc rs id
-        /\ ts_shape (ds_ts rs) = a_shape (rd st id) /\ ts_dt (ds_ts rs) = a_dt (rd st id)
+      exists rs k, r = OpDisc rs id
+        /\ ts_dt (ds_ts rs) = a_dt (rd st_raw id)
+        /\ ts_shape (ds_ts rs) = repeat 1%nat k ++ a_shape (rd st_raw id)
+        /\ (m <> MReduce -> k = 0%nat) /\ (k = 0%nat -> st' = st_raw)
         /\ (m = MAccumulate -> ds_axes rs = ds_axes ds)
         /\ (m = MReduce -> ds_axes rs = pick dummy_ax (ds_axes ds) (kept_axes (ndim ds) (kw_axis kw)))
   end.
@@ -144,9 +152,10 @@ Lemma disc_meth_sound (NP : npsem) (st : store) ds nout m ins kw rins outs rets 
   (outs = [] \/ outs = [None]) ->
   map_opt tens_unwrap (map to_tensor ins) = Some rins ->
   disc_ufunc cast NP st ds nout m ins kw outs = Ok (rets, st') ->
-  exists rr,
-    raw_ufunc cast NP st m (kw_drop_keepdims kw) rins (if is_at m then [] else [None]) = Ok ([rr], st')
-    /\ exists r, rets = [r] /\ wraps_disc_meth st' ds m kw r rr.
+  exists rr st_raw,
+    raw_ufunc cast NP st m (kw_drop_keepdims kw) rins (if is_at m then [] else [None]) = Ok ([rr], st_raw)
+    /\ reshape_of st_raw st'
+    /\ exists r, rets = [r] /\ wraps_disc_meth st_raw st' ds m kw r rr.
 Proof.
   intros Hm Ho Hu Hd. unfold disc_ufunc in Hd.
   assert (Hlen : len_ok m nout (length outs) = true)
@@ -164,18 +173,34 @@ Proof.
         destruct (tens_ufunc c np s sp n mm i k o) as [[rs st2]|] eqn:Et; try discriminate;
         eapply tens_meth_sound_gen in Et as (rr & Hr & r & -> & Hw); eauto
     end;
-    exists rr; (destruct rr as [id|v|]; cbn in Hw; [destruct Hw as (spc & -> & Hs & Hdt) | subst r | subst r]);
-    try (inversion Hd; subst; split; [exact Hr|]; eexists; split; reflexivity).
+    exists rr, st2; (destruct rr as [id|v|]; cbn in Hw; [destruct Hw as (spc & -> & Hs & Hdt) | subst r | subst r]);
+    try (inversion Hd; subst; split; [exact Hr|]; split; [left; reflexivity|];
+         eexists; split; [reflexivity|]; cbn; split; reflexivity).
   - (* reduce, array result *)
-    destruct (shape_eqb (ts_shape spc) _) eqn:Es; try discriminate.
-    inversion Hd; subst. split; [exact Hr|]. eexists; split; [reflexivity|]. cbn.
-    eexists; split; [reflexivity|]. apply shape_eqb_eq in Es.
-    repeat split; try congruence.
-    rewrite byaxis_astype_dt. exact Hdt.
+    split; [exact Hr|].
+    destruct (shape_eqb (ts_shape spc) _) eqn:Es.
+    + inversion Hd; subst. split; [left; reflexivity|]. eexists; split; [reflexivity|].
+      apply shape_eqb_eq in Es. unfold wraps_disc_meth.
+      eexists; exists 0%nat. split; [reflexivity|].
+      split; [rewrite byaxis_astype_dt; exact Hdt|].
+      split; [cbn [repeat app]; congruence|].
+      split; [auto|]. split; [auto|]. split; [discriminate|]. intros _. reflexivity.
+    + destruct (shape_eqb (repeat 1%nat _ ++ ts_shape spc) _) eqn:Es2; try discriminate.
+      inversion Hd; subst. split; [right; eexists; eexists; reflexivity|].
+      eexists; split; [reflexivity|].
+      apply shape_eqb_eq in Es2. unfold wraps_disc_meth.
+      eexists; eexists. split; [reflexivity|].
+      split; [rewrite byaxis_astype_dt; exact Hdt|].
+      split; [rewrite <- Hs; symmetry; exact Es2|].
+      split; [intros Hne; congruence|].
+      split; [|split; [discriminate | intros _; reflexivity]].
+      intros Hk. exfalso. rewrite Hk in Es2. cbn [repeat app] in Es2.
+      rewrite Es2, shape_eqb_refl in Es. discriminate.
   - (* accumulate *)
     destruct (mk_dspace (ds_axes ds) spc) as [rs'|] eqn:Em; try discriminate.
     apply mk_dspace_ok in Em as [-> Hn]. inversion Hd; subst. split; [exact Hr|].
-    eexists; split; [reflexivity|]. cbn. eexists; split; [reflexivity|].
+    split; [left; reflexivity|].
+    eexists; split; [reflexivity|]. cbn. eexists; exists 0%nat.
     repeat split; auto; discriminate.
   - (* outer *)
     destruct ins as [|[| |d1 i1| |] [|[| |d2 i2| |] [|? ?]]]; try discriminate.
@@ -183,8 +208,9 @@ Proof.
     match type of Hd with match mk_dspace ?a ?t with _ => _ end = _ =>
       destruct (mk_dspace a t) as [rs'|] eqn:Em; try discriminate end.
     apply mk_dspace_ok in Em as [-> Hn]. inversion Hd; subst. split; [exact Hr|].
-    eexists; split; [reflexivity|]. cbn. eexists; split; [reflexivity|].
-    repeat split; try discriminate.
+    split; [left; reflexivity|].
+    eexists; split; [reflexivity|]. cbn. eexists; exists 0%nat.
+    repeat split; try discriminate; auto.
     + destruct (ts_w (ds_ts d1)), (ts_w (ds_ts d2)); cbn; auto.
     + destruct (ts_w (ds_ts d1)), (ts_w (ds_ts d2)); cbn; auto.
   - (* at: an array-valued result cannot occur *)
